@@ -14,6 +14,116 @@ pub struct Case {
     /// Some(m): instead, m interior knots at j/2 (j = 1..=m), the middle one doubled when k >= 3, domain [0, (m+1)/2]
     #[serde(default)]
     pub long: Option<usize>,
+    /// Some(v): instead, a knot vector whose spans differ by sixty binary orders of magnitude: 0, 2^-40, 2^-30, ..,
+    /// 2^20 (v = 0), its mirror image -2^20 .. -2^-40, 0 (v = 1), or both joined at zero (v = 2); k-fold end knots
+    #[serde(default)]
+    pub dyadic: Option<u8>,
+}
+
+/// plain Cox-de Boor recursion in doubles (exact `0/0 := 0` rule), returning the value of the m-th derivative and the
+/// sum of the absolute values of the terms it was formed from (the scale against which a difference is judged)
+fn ref_basis(x: f64, i: usize, k: usize, t: &[f64], m: usize) -> (f64, f64) {
+    let last = t[t.len() - 1];
+    if k == 1 {
+        if m > 0 {
+            return (0.0, 0.0);
+        }
+        let inside = (t[i] <= x && x < t[i + 1]) || (x == last && t[i + 1] == last && t[i] < last);
+        return (if inside { 1.0 } else { 0.0 }, if inside { 1.0 } else { 0.0 });
+    }
+    let (d1, d2) = (t[i + k - 1] - t[i], t[i + k] - t[i + 1]);
+    let (mut v, mut s) = (0.0, 0.0);
+    if m == 0 {
+        if d1 != 0.0 {
+            let (a, sa) = ref_basis(x, i, k - 1, t, 0);
+            v += (x - t[i]) / d1 * a;
+            s += ((x - t[i]) / d1).abs() * sa;
+        }
+        if d2 != 0.0 {
+            let (b, sb) = ref_basis(x, i + 1, k - 1, t, 0);
+            v += (t[i + k] - x) / d2 * b;
+            s += ((t[i + k] - x) / d2).abs() * sb;
+        }
+    } else {
+        let c = (k - 1) as f64;
+        if d1 != 0.0 {
+            let (a, sa) = ref_basis(x, i, k - 1, t, m - 1);
+            v += c * a / d1;
+            s += c * sa / d1;
+        }
+        if d2 != 0.0 {
+            let (b, sb) = ref_basis(x, i + 1, k - 1, t, m - 1);
+            v -= c * b / d2;
+            s += c * sb / d2;
+        }
+    }
+    (v, s)
+}
+
+fn dyadic_knots(k: usize, v: u8) -> Vec<f64> {
+    let pos: Vec<f64> = (-4..=2).map(|e| 2.0_f64.powi(10 * e)).collect();
+    let mut inner: Vec<f64> = vec![];
+    if v >= 1 {
+        inner.extend(pos.iter().rev().map(|p| -p));
+    }
+    inner.push(0.0);
+    if v != 1 {
+        inner.extend(pos.iter().cloned());
+    }
+    let mut t = vec![inner[0]; k - 1];
+    t.extend(inner.iter().cloned());
+    t.extend(std::iter::repeat(*inner.last().unwrap()).take(k - 1));
+    t
+}
+
+/// knot vectors with spans of very different widths: every value and every derivative against the plain recursion,
+/// partition of unity, derivatives summing to zero, and the vector route
+fn check_dyadic(case: &Case, v: u8, idx: u64, acc: &mut Acc) {
+    let cj = || serde_json::to_value(case).unwrap();
+    let k = case.k;
+    let t = dyadic_knots(k, v);
+    let n = t.len() - k;
+    let mut u = t.clone();
+    u.dedup();
+    let mut pts: Vec<f64> = vec![];
+    for w in u.windows(2) {
+        pts.push(w[0]);
+        for q in [0.25, 0.5, 0.75] {
+            pts.push(w[0] + (w[1] - w[0]) * q);
+        }
+    }
+    pts.push(*u.last().unwrap());
+    neighbour_checks(&t, k, n, "dyadic", case, idx, acc);
+    let sp = rateslib::splines::PPSpline::<f64>::new(k, t.clone(), None);
+    for x in pts.iter() {
+        for m in 0..k {
+            let mut sum = 0.0;
+            let mut big = 0.0_f64;
+            for i in 0..n {
+                acc.evals_add(2);
+                let got = if m == 0 { bsplev_single_f64(x, i, &k, &t, None) } else { bspldnev_single_f64(x, i, &k, &t, m, None) };
+                let (want, scale) = ref_basis(*x, i, k, &t, m);
+                if want != 0.0 {
+                    acc.nontrivial();
+                }
+                acc.outcome(&(k, got.to_bits()));
+                sum += got;
+                big = big.max(scale);
+                if !close_scaled(got, want, 1e-10, scale.max(f64::MIN_POSITIVE)) {
+                    acc.violate(&format!("wide-range-knots/{}", if m == 0 { "value" } else { "derivative" }), idx, cj(), json!({"x": format!("{:e}", x), "i": i, "m": m, "want": want}), json!(got));
+                }
+                let vr = sp.bspldnev(&vec![*x], &i, &m);
+                if vr.len() != 1 || (vr[0] != got && vr[0].to_bits() != got.to_bits()) {
+                    acc.violate("wide-range-knots/vector-route", idx, cj(), json!({"x": format!("{:e}", x), "i": i, "m": m, "want": got}), json!(vr));
+                }
+            }
+            let want_sum = if m == 0 { 1.0 } else { 0.0 };
+            if !close_scaled(sum, want_sum, 1e-10, big.max(1.0)) {
+                acc.violate(&format!("wide-range-knots/{}", if m == 0 { "partition-of-unity" } else { "derivatives-sum-to-zero" }), idx, cj(), json!({"x": format!("{:e}", x), "m": m, "want": want_sum}), json!(sum));
+            }
+        }
+    }
+    acc.sample(|| json!({"k": k, "t": t}));
 }
 
 fn long_knots(k: usize, m: usize) -> Vec<Rat> {
@@ -54,6 +164,9 @@ fn neighbour_checks(t: &Vec<f64>, k: usize, n: usize, what: &str, case: &Case, i
 }
 
 pub fn check(case: &Case, idx: u64, acc: &mut Acc) {
+    if let Some(v) = case.dyadic {
+        return check_dyadic(case, v, idx, acc);
+    }
     let cj = || serde_json::to_value(case).unwrap();
     let k = case.k;
     let tr = match case.long {
@@ -294,7 +407,7 @@ pub fn cases(tier: Tier) -> Vec<Case> {
     let mut out = vec![];
     for k in 1..=kmax {
         for interior in interior_configs(k) {
-            out.push(Case { k, interior, long: None });
+            out.push(Case { k, interior, long: None, dyadic: None });
         }
     }
     for k in 1..=5usize {
@@ -302,7 +415,12 @@ pub fn cases(tier: Tier) -> Vec<Case> {
             if m >= 255 && (tier != Tier::Thorough || !((m == 256 && k == 2) || (m == 257 && k == 4) || (m == 255 && k == 3))) {
                 continue;
             }
-            out.push(Case { k, interior: vec![], long: Some(m) });
+            out.push(Case { k, interior: vec![], long: Some(m), dyadic: None });
+        }
+    }
+    for k in 1..=6usize {
+        for v in 0..3u8 {
+            out.push(Case { k, interior: vec![], long: None, dyadic: Some(v) });
         }
     }
     out
@@ -322,7 +440,7 @@ pub fn run(ctx: &Ctx, replay_file: Option<String>) -> ! {
          i128 rational coefficients, symbolic derivatives, right limit, left limit at the right end point): value >= 0 \
          with no tolerance, exactly 0 outside [t_i, t_{i+k}], sum = 1 to 1e-12, m-th derivative equal to the model's, \
          exactly 0 for m >= k; the dual-abscissa variants (bsplev/bspldnev_single_dual, _dual2) return the same \
-         value with the next one / two derivatives as first / second order sensitivities. Scale invariance: every knot vector and abscissa multiplied by 2^e, e in {-1060,-1054,-1022,-80,-60,-54,-53,-30,40,900} (subnormal knots included), gives bit-identical values and exactly rescaled first derivatives. Translation: every knot vector and abscissa shifted by -4, -3, -1.5, -t0 and 1024 (exact) gives identical values and first derivatives, with both signs of zero tried for an abscissa and for a stored knot that lands on zero. Far translation: knots x 4 + 2^53 (spans of one or two ulps of the knot values) at the representable points, values and derivatives up to order 3. At the doubles one ulp below and above every knot (as given and translated, so also for spans that straddle zero) the functions sum to one, are non-negative and respect their support; every case starts with two calls whose index is out of range (caught), which must leave nothing behind. Vector route: PPSpline::bspldnev on ascending, descending and scrambled-with-repeats point vectors equals the single-point route. Long knot vectors: orders 1..5 with 7, 8, 15, 16, 17, 31, 32, 33, 64 interior knots (thorough tier: also 255 / 256 / 257 at order 3 / 2 / 4) at half-integer positions (middle knot doubled). The model itself is checked to be a partition of unity at every point. Non-trivial: \
+         value with the next one / two derivatives as first / second order sensitivities. Scale invariance: every knot vector and abscissa multiplied by 2^e, e in {-1060,-1054,-1022,-80,-60,-54,-53,-30,40,900} (subnormal knots included), gives bit-identical values and exactly rescaled first derivatives. Translation: every knot vector and abscissa shifted by -4, -3, -1.5, -t0 and 1024 (exact) gives identical values and first derivatives, with both signs of zero tried for an abscissa and for a stored knot that lands on zero. Far translation: knots x 4 + 2^53 (spans of one or two ulps of the knot values) at the representable points, values and derivatives up to order 3. At the doubles one ulp below and above every knot (as given and translated, so also for spans that straddle zero) the functions sum to one, are non-negative and respect their support; every case starts with two calls whose index is out of range (caught), which must leave nothing behind. Vector route: PPSpline::bspldnev on ascending, descending and scrambled-with-repeats point vectors equals the single-point route. Long knot vectors: orders 1..5 with 7, 8, 15, 16, 17, 31, 32, 33, 64 interior knots (thorough tier: also 255 / 256 / 257 at order 3 / 2 / 4) at half-integer positions (middle knot doubled). Wide-range knot vectors (0, 2^-40, 2^-30, .., 2^20, the mirror image, and both joined; orders 1..6): every value and derivative against a plain double-precision Cox-de Boor recursion judged relative to the size of its terms, partition of unity, derivatives summing to zero, vector route. The model itself is checked to be a partition of unity at every point. Non-trivial: \
          evaluations exactly at a knot where the function is non-zero.",
         json!({"max_order": ctx.tier.pick(6, 7), "knot_vectors": cs.len()}),
     )
